@@ -9,6 +9,7 @@ verus! {
 //@ include prelude/core.rs
 //@ include prelude/std_specs.rs
 //@ include prelude/panic.rs
+//@ include prelude/macroom.rs
 //@ extract src/bigint.rs :: enum Sign attrs=1
 #[derive(/*+*/Structural, /*-*/PartialEq, PartialOrd, Eq, Ord, Copy, Clone, Debug, Hash)]
 pub enum Sign {
@@ -325,48 +326,6 @@ fn bigint_from_slice(slice: &[BigDigit]) -> /*+*/(r: /*-*/BigInt/*+*/)/*-*/
 //@ end
 
 // ---------------------------------------------------------------- arithmetic of the four regimes
-
-/// the precondition of mac3: room for the product and for the largest transient excess (Karatsuba's cross term)
-pub open spec fn slack(lx: nat, ly: nat) -> nat { if lx + ly == 0 { 1 } else { pw((lx + ly - 1) as nat) } }
-pub open spec fn mac_room(a: nat, x: nat, y: nat, lx: nat, ly: nat, la: nat) -> bool {
-    la >= lx + ly + 1 && a + x * y + slack(lx, ly) < pw(la)
-}
-
-pub proof fn lemma_mul_le(a: nat, b: nat, c: nat, d: nat)
-    requires a <= c, b <= d
-    ensures a * b <= c * d
-{
-    assert(a * b <= c * d) by (nonlinear_arith) requires a <= c, b <= d;
-}
-
-pub proof fn lemma_mul_lt(a: nat, b: nat, c: nat, d: nat)
-    requires a < c, b < d
-    ensures a * b < c * d
-{
-    assert(a * b < c * d) by (nonlinear_arith) requires a < c, b < d;
-}
-
-/// products of operands bounded by their lengths
-pub proof fn lemma_prod_lt(x: nat, y: nat, lx: nat, ly: nat)
-    requires x < pw(lx), y < pw(ly)
-    ensures x * y < pw(lx + ly), x * y + slack(lx, ly) < pw(lx + ly + 1), slack(lx, ly) <= pw(lx + ly)
-{
-    lemma_mul_lt(x, y, pw(lx), pw(ly));
-    lemma_pw_add(lx, ly);
-    if lx + ly >= 1 { lemma_pw_mono((lx + ly - 1) as nat, lx + ly); }
-    assert(pw(lx + ly + 1) == B() * pw(lx + ly));
-    assert(x * y + slack(lx, ly) < B() * pw(lx + ly)) by (nonlinear_arith)
-        requires x * y < pw(lx + ly), slack(lx, ly) <= pw(lx + ly), B() >= 2;
-}
-
-/// a fresh zero buffer of lx+ly+1 (or more) digits has room
-pub proof fn lemma_room_zero(x: nat, y: nat, lx: nat, ly: nat, la: nat)
-    requires x < pw(lx), y < pw(ly), la >= lx + ly + 1
-    ensures mac_room(0, x, y, lx, ly, la)
-{
-    lemma_prod_lt(x, y, lx, ly);
-    lemma_pw_mono(lx + ly + 1, la);
-}
 
 /// stripping nz low zero digits of b (and the same number of accumulator digits) keeps the room
 pub proof fn lemma_room_strip(acc: Seq<u64>, b: Seq<u64>, cv: nat, lc: nat, nz: nat)
